@@ -7,6 +7,7 @@
 From WK Require Import Base.Base.
 From WK Require Import Model.ReplicaLog Model.QuorumLog Model.Cluster Model.Monitor_C01.
 From WK Require Import Proof.ReplicaLog Proof.QuorumLog_Commit Proof.QuorumLog_C01.
+From WK Require Import Proof.ReplicaLog_WF Proof.LogMatching Proof.Cluster_WF Proof.QuorumLog_C01_partial.
 Open Scope N_scope.
 
 (* a durable Sync (Durable or AlreadyDurable) leaves the replica holding every entry of the
@@ -100,3 +101,59 @@ Theorem c01_model_satisfies_monitor_bounded :
   c01_codes_in [0] (c01_alphabet false) 5 = true /\ c01_codes_in [0; 2] (c01_alphabet true) 4 = true.
 Proof. exact (conj c01_bounded_all_answer c01_bounded_with_outages). Qed.
 Print Assumptions c01_model_satisfies_monitor_bounded.
+
+(* ---- c01_partial (unbounded, conditional) -------------------------------------------------------------------
+
+   WF2 = the replica log is an unbroken hash chain from genesis whose digests are the (structural) hash
+   of the entry's own fields, row and predecessor digest.  It holds for every replica reached by every
+   schedule (c01_all_replicas_well_formed).
+
+   selection_covers n sel idx e = idx <= selected index, and some well-formed voter holds e at idx and the
+   selected identity at the selected index.  This is what `probe_covers` (>= Q of the probe's respondents hold
+   the acknowledged entry) yields through quorum intersection with the >= Q supporters of the selection
+   WHEN the selected index reaches idx; in F1 it fails because the selected index (0) is below the entry (1). *)
+
+(* log matching: two well-formed logs holding the same identity at index k agree on every index <= k *)
+Theorem c01_log_matching : forall (A B : replica) k e,
+  WF A -> WF B -> digests_ok A -> digests_ok B ->
+  ent_at A k = Some e -> ent_at B k = Some e ->
+  forall idx, idx <= k -> ent_at A idx = ent_at B idx.
+Proof. exact log_matching. Qed.
+Print Assumptions c01_log_matching.
+
+(* a successful repair leaves the installing node ending exactly in the selected identity *)
+Theorem c01_repair_installs_selection : forall n local voters q sel maxBytes n1 recovered,
+  repairQuorumPrefix n local voters q sel maxBytes = (n1, inr recovered) -> 0 < sl_index sel ->
+  rs_leo recovered = sl_index sel /\ rs_tail recovered = sl_ident sel /\
+  ent_at (net_rep n1 local) (sl_index sel) = Some (sl_ident sel).
+Proof. exact repair_success_tail. Qed.
+Print Assumptions c01_repair_installs_selection.
+
+(* every successful Install either was the idempotent answer of an already ready owner, or is
+   recoverQuorumPrefix ; repairQuorumPrefix ; optional barrier *)
+Theorem c01_install_is_recover_repair_barrier : forall cfg n st local a n' st' x leo hw,
+  Install cfg n st local a = (n', st', IOk x leo hw) ->
+  (n' = n /\ st' = st /\ qc_ready st = true) \/
+  exists sel n1 recovered,
+    recoverQuorumPrefix n local (a_voters a) (a_q a) = inr sel /\
+    repairQuorumPrefix n local (a_voters a) (a_q a) sel (cf_pagebytes cfg) = (n1, inr recovered) /\
+    (n' = n1 \/ exists bs, writeCurrentTermBarrier n1 a recovered (cf_rot cfg) = (n', inr bs)).
+Proof. exact Install_ok_recovery_path. Qed.
+Print Assumptions c01_install_is_recover_repair_barrier.
+
+(* c01_partial: an Install that succeeds through recovery with a selection covering the entry leaves
+   the installed, writable node holding that entry, identical, at its index *)
+Theorem c01_partial : forall cfg n st local a n' st' x leo hw idx e,
+  Install cfg n st local a = (n', st', IOk x leo hw) -> qc_ready st = false ->
+  WF2 (net_rep n local) ->
+  (forall sel, recoverQuorumPrefix n local (a_voters a) (a_q a) = inr sel -> selection_covers n sel idx e) ->
+  ent_at (net_rep n' local) idx = Some e.
+Proof. exact Install_keeps_covered_entry. Qed.
+Print Assumptions c01_partial.
+
+(* the well-formedness premise of c01_partial holds on every schedule *)
+Theorem c01_all_replicas_well_formed : forall cfg ops,
+  run_bounded cfg (cluster_init cfg) ops ->
+  forall v, WF2 (net_rep (cl_net (run_cluster cfg (cluster_init cfg) ops)) v).
+Proof. exact all_replicas_WF2. Qed.
+Print Assumptions c01_all_replicas_well_formed.
